@@ -84,6 +84,10 @@ pub struct Shared {
     pub foreign: AtomicUsize,
     /// a receiver that is unblocked leaves instead of calling again
     pub exit_on_unblock: AtomicBool,
+    /// requests written to a socket so far
+    pub sent: AtomicUsize,
+    /// client-side trouble that is not the library's doing (connect failed or took very long)
+    pub client_trouble: AtomicUsize,
 }
 
 impl Shared {
@@ -134,7 +138,7 @@ fn gen_trial(rng: &mut Rng, id: u64) -> Trial {
     }
     // receiver 0 never leaves: whatever is queued must reach it
     receivers.push(RecvScript { ops: vec![if rng.chance(1, 2) { Op::Recv } else { Op::IterNext }], leave: Leave::Loop, after_get: AfterGet::Continue });
-    let touts = [0u64, 300, 900, 2000, 5000, 20000];
+    let touts = [0u64, 300, 900, 2000, 5000, 20000, u64::MAX];
     for _ in 1..c {
         let n = rng.range(1, 3);
         let ops = (0..n)
@@ -163,6 +167,15 @@ fn gen_trial(rng: &mut Rng, id: u64) -> Trial {
     }
     let unblocks_us = if rng.chance(1, 3) { (0..rng.range(1, 4)).map(|_| rng.range(0, 20000) as u64).collect() } else { Vec::new() };
     Trial { id, conns, receivers, unblocks_us }
+}
+
+/// `u64::MAX` microseconds stands for `Duration::MAX` ("wait for ever" spelled as a timeout)
+pub fn timeout_of(us: u64) -> Duration {
+    if us == u64::MAX {
+        Duration::MAX
+    } else {
+        Duration::from_micros(us)
+    }
 }
 
 fn parse_url(url: &str) -> Option<(u64, usize, usize)> {
@@ -199,7 +212,7 @@ pub fn receiver_loop(server: Arc<Server>, sh: Arc<Shared>, trial: u64, ridx: usi
                 Some(rq) => Ok(Some(rq)),
                 None => Err(()),
             },
-            Op::RecvTimeout(us) => lib(|| server.recv_timeout(Duration::from_micros(*us))).map_err(|_| ()),
+            Op::RecvTimeout(us) => lib(|| server.recv_timeout(timeout_of(*us))).map_err(|_| ()),
             Op::TryRecv => lib(|| server.try_recv()).map_err(|_| ()),
         };
         if blocking {
@@ -266,11 +279,20 @@ pub fn receiver_loop(server: Arc<Server>, sh: Arc<Shared>, trial: u64, ridx: usi
 }
 
 pub fn client_thread(addr: crate::net::Addr, trial: u64, cidx: usize, plan: ConnPlan, sh: Arc<Shared>) -> usize {
+    let who = format!("c{}", cidx);
+    let t_conn = Instant::now();
     let mut c = match Client::connect(&addr) {
         Ok(c) => c,
-        Err(_) => return 0,
+        Err(e) => {
+            sh.ev(&who, format!("connect failed: {}", e));
+            sh.client_trouble.fetch_add(1, Ordering::SeqCst);
+            return 0;
+        }
     };
-    let who = format!("c{}", cidx);
+    if t_conn.elapsed() > Duration::from_millis(200) {
+        sh.ev(&who, format!("connect took {} ms", t_conn.elapsed().as_millis()));
+        sh.client_trouble.fetch_add(1, Ordering::SeqCst);
+    }
     let mut answered = 0;
     for i in 0..plan.m {
         let g = plan.gaps_us[i];
@@ -280,6 +302,7 @@ pub fn client_thread(addr: crate::net::Addr, trial: u64, cidx: usize, plan: Conn
         let rq = format!("GET /q/{:x}/{}/{} HTTP/1.1\r\nHost: h\r\n\r\n", trial, cidx, i);
         sh.ev(&who, format!("send {}/{}", cidx, i));
         c.send(rq.as_bytes());
+        sh.sent.fetch_add(1, Ordering::SeqCst);
         if !plan.pipelined {
             // wait for the response, but not forever: a stuck request is the monitor's business
             match c.await_finals(i + 1, &|_| false, Duration::from_millis(4000)) {
@@ -322,7 +345,7 @@ pub fn wind_down(server: &Arc<Server>, sh: &Arc<Shared>, handles: Vec<std::threa
         // one token per receiver still blocked in recv; repeated because (on a defective tree) a
         // token's notification can itself be lost
         let s = server.verif_queue_snapshot();
-        if s.blocked_pop > s.tokens {
+        if s.blocked_pop + s.blocked_pop_timeout > s.tokens {
             server.unblock();
         } else {
             sleep_us(300);
@@ -363,6 +386,8 @@ pub fn run_trial(ctx: &Ctx, env: &Env, trial: &Trial, case_seed: u64, mode: &str
         unblocked_returns: AtomicUsize::new(0),
         foreign: AtomicUsize::new(0),
         exit_on_unblock: AtomicBool::new(false),
+        sent: AtomicUsize::new(0),
+        client_trouble: AtomicUsize::new(0),
     });
     let mut rh = Vec::new();
     for (i, s) in trial.receivers.iter().enumerate() {
@@ -456,13 +481,24 @@ pub fn run_trial(ctx: &Ctx, env: &Env, trial: &Trial, case_seed: u64, mode: &str
             if last_progress.elapsed() > Duration::from_millis(2500) {
                 // clients done? then requests are missing
                 let s3 = server.verif_queue_snapshot();
+                let sent = sh.sent.load(Ordering::SeqCst);
+                let n = sh.delivered.lock().unwrap().len();
                 if !cal.healthy(Duration::from_millis(250)) {
                     inconclusive = Some("no progress and calibrator unhealthy".into());
+                } else if n >= sent {
+                    // everything that was written to a socket was handed out; the clients did not
+                    // get to send the rest (connect refused / SYN retransmission under load)
+                    inconclusive = Some(format!(
+                        "clients sent only {} of {} requests (client-side trouble events: {})",
+                        sent,
+                        total,
+                        sh.client_trouble.load(Ordering::SeqCst)
+                    ));
                 } else if verdict.is_none() {
                     verdict = Some((
                         "C07/request-not-delivered".into(),
-                        format!("{} of {} sent requests were never handed to a receiver", total - n, total),
-                        J::obj().set("snapshot", snap_json(&s3)),
+                        format!("{} of {} requests written to a connection were never handed to a receiver", sent - n, sent),
+                        J::obj().set("snapshot", snap_json(&s3)).set("planned", J::u(total)),
                     ));
                 }
                 break;
